@@ -2,7 +2,7 @@
 # usage: tools/confirm_seeded_suite.sh [pattern]   every seeded change must keep the pinned test-suite's baseline passing:
 # applies each patch to a scratch worktree and runs the pinned suite there (guard off); prints "<id> passed=.. baseline=208 missing=.."
 cd "$(dirname "$0")/.." || exit 2
-for d in seeded/${1:-*}/; do
+for d in $(if [ $# -gt 1 ]; then for x in "$@"; do echo seeded/$x/; done; else echo seeded/${1:-*}/; fi); do
   id=$(basename "$d")
   WT=/tmp/wt_suite_$$_$id
   git -C /repo worktree add -q --detach "$WT" HEAD || continue
